@@ -182,7 +182,8 @@ CLAIMED = {
              "finding); (c) Request.prepare - translated from aiokafka/protocol/api.py on every run (translator/units_c11.py -> gen/PrepareGen.v) "
              "and proved equal to the model function for every input - proved to pick the highest supported version inside the advertised range or raise, "
              "every _CLASSES list sorted, header version equal to the class's declared version; (d) replies parsed with the request "
-             "version's response schema and header form; (e) listed parameters inexpressible in the negotiated version are "
+             "version's response schema and header form, and (monitor on the imported classes) with a response class that "
+             "carries the request's own api key and version; (e) listed parameters inexpressible in the negotiated version are "
              "rejected. Each run ties the models to the code by byte-exact evaluation of the Gallina codec against the real "
              "classes, exhaustive negotiation over all builders x all (min,max) <= 13 x all parameter subsets, and request bytes "
              "of every builder and version against the Kafka-table encoding of the expected content.",
